@@ -3162,6 +3162,7 @@ static struct jbl_node* _jbl_merge_patch_node(
     return 0;
   }
   if (patch->type == JBV_OBJECT) {
+    bool created = !target; // on a failure below a node created here is released again (heap mode)
     if (!target) {
       if (pool) {
         target = iwpool_alloc(sizeof(*target), pool);
@@ -3226,16 +3227,21 @@ static struct jbl_node* _jbl_merge_patch_node(
           if ((node->klidx == patch->klidx) && !memcmp(node->key, patch->key, node->klidx)) { // names may hold a zero byte
             if (pool) {
               struct jbl_node *src = _jbl_merge_patch_node(node, patch, pool, rcp);
+              if (!src) {
+                goto failed;
+              }
               if (src != node) {
                 _jbl_copy_node_data(node, src);
               }
             } else {
-              if (node->type == JBV_STR && patch->type != JBV_OBJECT) { // for an object patch the callee frees it
-                free((void*) node->vptr);
-              }
               struct jbl_node *src = _jbl_merge_patch_node(node, patch, 0, rcp);
+              if (!src) { // the copy of the patch value failed (nesting limit, allocation): reported, `node` as it was
+                goto failed;
+              }
               if (src != node) {
-                if (node->type >= JBV_OBJECT) {
+                if (node->type == JBV_STR) { // (for an object patch the callee has freed it and `node` is an object by now)
+                  free((void*) node->vptr);
+                } else if (node->type >= JBV_OBJECT) {
                   _jbn_allocated_destroy_children(node);
                 }
                 _jbl_copy_node_data(node, src);
@@ -3250,12 +3256,22 @@ static struct jbl_node* _jbl_merge_patch_node(
           node = node->next;
         }
         if (!node) {
-          _jbn_add_item(target, _jbl_merge_patch_node(0, patch, pool, rcp));
+          struct jbl_node *nn = _jbl_merge_patch_node(0, patch, pool, rcp);
+          if (!nn) {
+            goto failed;
+          }
+          _jbn_add_item(target, nn);
         }
       }
       patch = patch_next;
     }
     return target;
+
+failed:
+    if (created && !pool) {
+      jbn_visit2(target, 0, _jbn_allocated_destroy_visitor);
+    }
+    return 0;
   } else if (pool) {
     return patch;
   } else {
